@@ -83,7 +83,10 @@ def judgeE2E : Judge := liftJudge fun input obs => do
   let reqLim := Spec.limitInForce defaultMax sc.pathMax sc.serverMax
   let respLim := Spec.limitInForce defaultMax sc.poolMax sc.proxyMax
   -- agreement with the model
-  let agree : Bool := match res with
+  -- stream mode + short backend body: the mux's copy fails and it aborts the connection (model: `clientAborted`)
+  let aborted := clientAborted b.ops o.canon b.cfg b.q b.reply
+  let sawAbort := c.err != "" || !c.frameOK
+  let agree : Bool := if aborted then hits ≥ 1 && sawAbort else match res with
     | .early st => hits == 0 && c.status == st
     | .adaptorFailed => hits == 0 && c.status == 503
     | .proxied seen cl ok =>
@@ -103,7 +106,7 @@ def judgeE2E : Judge := liftJudge fun input obs => do
     | none => false
   let delivered := !nobody && c.decSum == o.back.sum
   let sig : String :=
-    if c.err != "" then "e2e:unreadable:" ++ c.err
+    if c.err != "" && !(contacted && respLim < 0 && Spec.isShort respSrc) then "e2e:unreadable:" ++ c.err
     else if !reqOK then
       "e2e:request:" ++ (if c.status == 413 || c.status == 400 then toString c.status else "passed") ++ ":" ++
         (if contacted then "forwarded" else "not-forwarded") ++
@@ -113,9 +116,9 @@ def judgeE2E : Judge := liftJudge fun input obs => do
     else if !contacted then ""
     else if respLim < 0 then
       -- stream mode: an honest body of any size arrives intact; a lying backend must not look like a clean success
-      -- (behind the Proxy's gzip compressor there is no Content-Length left to contradict: the truncation then shows
-      -- as a gzip stream without trailer, i.e. a decoding error at the client)
-      if Spec.isShort respSrc then (if c.frameOK && c.decErr == "" && c.status < 400 && !nobody then "e2e:response:short-body-clean-success:stream" else "")
+      -- (the status line may be out already: the transfer must then be visibly aborted — no readable response at all,
+      -- or a framing error —, with or without the Proxy's gzip compressor in between)
+      if Spec.isShort respSrc then (if c.err == "" && c.frameOK && c.status < 400 && !nobody then "e2e:response:short-body-clean-success:stream" ++ (if sc.compression ≥ 0 then "+pcomp" else "") else "")
       else if c.status != sc.bStatus then s!"e2e:response:status:{c.status}:stream"
       else if !nobody && !(c.frameOK && c.decSum == o.back.sum) then "e2e:response:stream-not-intact"
       else ""
@@ -135,7 +138,8 @@ def judgeE2E : Judge := liftJudge fun input obs => do
          tags := ["req-" ++ rel reqLim reqSrc, "resp-" ++ rel respLim respSrc, "req-enc:" ++ sc.body.enc, "resp-enc:" ++ sc.bBody.enc,
                   "req-limit-level:" ++ lvl sc.pathMax sc.serverMax, "resp-limit-level:" ++ lvl sc.poolMax sc.proxyMax,
                   s!"client-status:{c.status}", if contacted then "backend-contacted" else "backend-not-contacted"]
-                 ++ (if isHead then ["head"] else []) ++ (if sc.compression ≥ 0 then ["proxy-compression"] else []),
+                 ++ (if isHead then ["head"] else []) ++ (if sc.compression ≥ 0 then ["proxy-compression"] else [])
+                 ++ (if aborted then ["model:client-aborted"] else []),
          nontrivial := rel reqLim reqSrc != "under" || (contacted && rel respLim respSrc != "under") }
 
 def judges : List (String × Judge) := [("fetch", judgeFetch), ("e2e", judgeE2E)]
